@@ -354,10 +354,23 @@ static void k_pem_roundtrip(Tape &t)
 		BIO_free(bio);
 		stats.cls("pem:vs-openssl");
 	}
-	// decode(encode(x)) == x, one object, name upper-cased (truncated names are reported as documented for <= 127)
-	// (the decoder keeps "NAME-----" in a 128-byte buffer: banners longer than 121 characters are not recognised as
-	// objects at all - undocumented limit, noted as an observation; such files are only required to decode safely)
-	if (bl > 121) { (void)pem_decode(text, 0); stats.cls("pem:banner-too-long-for-decoder"); }
+	// decode(encode(x)) == x, one object, name upper-cased.  bearssl_pem.h: the decoder "accepts names up to 127
+	// characters"; longer ones are only required to decode safely.
+	if (bl > 127) { (void)pem_decode(text, 0); stats.cls("pem:banner-too-long-for-decoder"); }
+	if (bl > 121 && bl <= 127) {
+		// listed finding: the 127-character budget of next-banner-begin also counts the trailing dashes, and is
+		// tested before the end of line is looked at: names of 122..127 characters are silently not recognised
+		std::vector<PemObj> objs = pem_decode(text, 0);
+		std::string up = banner;
+		for (auto &ch : up) if (ch >= 'a' && ch <= 'z') ch = (char)(ch - 32);
+		bool good = objs.size() == 1 && objs[0].ended && !objs[0].error && objs[0].name == up && objs[0].data == data;
+		if (!good) {
+			std::string what = fmt("an object whose name has 122..127 characters (documented limit: 127) is not reported by the PEM decoder at all: no begin event, no error (%zu objects decoded from the encoder's own output; the budget of 127 bytes in next-banner-begin counts the five trailing dashes)", objs.size());
+			VF_CHECK(objs.empty() && known("pem-name-122-to-127-dropped"), "%s: %s", desc.c_str(), what.c_str());
+			stats.known_finding("pem-name-122-to-127-dropped", what);
+		}
+		stats.cls("pem:banner-122-127");
+	}
 	if (bl > 0 && bl <= 121) {
 		std::vector<PemObj> objs = pem_decode(text, t.u8() % 3 == 0 ? 1 + t.u8() % 50 : 0);
 		VF_CHECK(objs.size() == 1 && objs[0].ended && !objs[0].error, "%s: decoding gives %zu objects (error %d)", desc.c_str(), objs.size(), objs.empty() ? -1 : (int)objs[0].error);
